@@ -28,18 +28,22 @@ func (probeTagNode) Execute(ctx *pongo2.ExecutionContext, w pongo2.TemplateWrite
 	return nil
 }
 
+func probeTagParser(doc *pongo2.Parser, start *pongo2.Token, args *pongo2.Parser) (pongo2.INodeTag, *pongo2.Error) {
+	atomic.AddInt64(&probeTagParsed, 1)
+	for args.Remaining() > 0 {
+		args.Consume()
+	}
+	return probeTagNode{}, nil
+}
+
+func probeFilterFn(in, param *pongo2.Value) (*pongo2.Value, *pongo2.Error) {
+	atomic.AddInt64(&probeFilterCalled, 1)
+	return pongo2.AsValue("PROBE-FILTER(" + in.String() + ")"), nil
+}
+
 func init() {
-	_ = pongo2.RegisterTag("verif_probe_tag", func(doc *pongo2.Parser, start *pongo2.Token, args *pongo2.Parser) (pongo2.INodeTag, *pongo2.Error) {
-		atomic.AddInt64(&probeTagParsed, 1)
-		for args.Remaining() > 0 {
-			args.Consume()
-		}
-		return probeTagNode{}, nil
-	})
-	_ = pongo2.RegisterFilter("verif_probe_filter", func(in, param *pongo2.Value) (*pongo2.Value, *pongo2.Error) {
-		atomic.AddInt64(&probeFilterCalled, 1)
-		return pongo2.AsValue("PROBE-FILTER(" + in.String() + ")"), nil
-	})
+	_ = pongo2.RegisterTag("verif_probe_tag", probeTagParser)
+	_ = pongo2.RegisterFilter("verif_probe_filter", probeFilterFn)
 }
 
 func probeCounters() [3]int64 {
@@ -381,6 +385,27 @@ func checkC03Route(c any, r *Rec) error {
 			return fmt.Errorf("unbanned twin (%s) renders %q/%v in the banning set but %q/%v elsewhere", twinName, oA, xA, oB, xB)
 		}
 	}
+	// spelling the banned name in another case is no way round the ban: either the engine does not
+	// know the variant (error) or it takes it for the banned name (error)
+	for _, variant := range []string{strings.ToUpper(cs.Target[:1]) + cs.Target[1:], strings.ToUpper(cs.Target)} {
+		if variant == cs.Target {
+			continue
+		}
+		vStmt, _, verr := c03Build(cs, variant)
+		if verr != nil {
+			continue
+		}
+		vFiles, _ := c03Files(cs.File, vStmt)
+		setV, _, _ := c03NewSet(vFiles, cs.Kind, cs.Target)
+		tplV, errV := setV.FromFile("/root.tpl")
+		if errV == nil {
+			// (unknown names may surface only at execution time: lazy includes, the filter tag)
+			out, xerrV := tplV.Execute(c03Ctx())
+			if xerrV == nil {
+				return fmt.Errorf("%s %q is banned, but written as %q it compiled and rendered %q: %s", cs.Kind, cs.Target, variant, out, vFiles["/root.tpl"]+" | "+vStmt)
+			}
+		}
+	}
 	// the original still works in B
 	if _, xerr := tplB.Execute(c03Ctx()); xerr != nil {
 		r.Class("original-fails-at-runtime-in-B(allowed)")
@@ -661,6 +686,10 @@ func checkC03Hist(c any, r *Rec) error {
 		case "Debug":
 			// a debugging switch is no way back either
 			s.Debug = op.Name == "on"
+		case "ReplaceProbe":
+			// bans go by name: replacing the implementation registered under a banned name lifts nothing
+			_ = pongo2.ReplaceTag("verif_probe_tag", probeTagParser)
+			_ = pongo2.ReplaceFilter("verif_probe_filter", probeFilterFn)
 		case "CleanCache":
 			// cache maintenance is no way back: the set has created templates and stays frozen
 			if op.Name == "" {
@@ -716,13 +745,13 @@ func genC03Hist(t *rapid.T) *c03Hist {
 	h := &c03Hist{}
 	for i := 0; i < n; i++ {
 		op := c03Op{Set: drawInt(t, 0, 1, "set")}
-		op.Op = pickW(t, "op", []string{"BanTag", "BanFilter", "FromString", "FromBytes", "FromFile", "FromCache", "RenderTemplateString", "RenderTemplateBytes", "RenderTemplateFile", "ProbeTag", "ProbeFilter", "CleanCache", "Debug"},
-			[]int{5, 5, 1, 1, 1, 1, 1, 1, 1, 2, 2, 2, 2})
+		op.Op = pickW(t, "op", []string{"BanTag", "BanFilter", "FromString", "FromBytes", "FromFile", "FromCache", "RenderTemplateString", "RenderTemplateBytes", "RenderTemplateFile", "ProbeTag", "ProbeFilter", "CleanCache", "Debug", "ReplaceProbe"},
+			[]int{5, 5, 1, 1, 1, 1, 1, 1, 1, 2, 2, 2, 2, 2})
 		switch op.Op {
 		case "BanTag", "ProbeTag":
-			op.Name = pick(t, "tagname", append([]string{"nosuchtag", "if", "if", "lorem", "for"}, tags...))
+			op.Name = pick(t, "tagname", append([]string{"nosuchtag", "if", "if", "lorem", "for", "verif_probe_tag", "verif_probe_tag"}, tags...))
 		case "BanFilter", "ProbeFilter":
-			op.Name = pick(t, "filtername", append([]string{"nosuchfilter", "upper", "upper", "safe"}, filters...))
+			op.Name = pick(t, "filtername", append([]string{"nosuchfilter", "upper", "upper", "safe", "verif_probe_filter", "verif_probe_filter"}, filters...))
 		case "FromString", "FromBytes", "RenderTemplateString", "RenderTemplateBytes":
 			op.Name = pick(t, "src", []string{"plain", "{{ 1 }}", "{% if %}", "{% lorem %}", `{{ "x"|upper }}`})
 		case "FromFile", "FromCache", "RenderTemplateFile":
